@@ -159,7 +159,7 @@ theorem done_bin (name : String) (a b : Ast) (ta tb : List Tok) (qa qb : Nat) (h
     have hfn := finalName_bin name pva hpva
     have hop : step ⟨spa.map SItem.op ++ bump s.st, ita ++ s.out, pva⟩ (.opr name) =
         .ok ⟨.op name :: bump s.st, a :: s.out, .opr⟩ := by
-      simp only [step, hpva, not_true_eq_false, and_false, if_false, hnp, oprStep, hfn, hp, if_true, f1a (prec name) hqa,
+      simp only [step, hpva, not_true_eq_false, and_false, if_false, hnp, bin_not_range name hn, false_and, oprStep, hfn, hp, if_true, f1a (prec name) hqa,
         popWhile_stops (prec name) s.st hs]
     rw [runToks_cons _ _ _ _ hop (by simp)]
     have h2 := rb ⟨.op name :: bump s.st, a :: s.out, .opr⟩ (Or.inr (Or.inr rfl)) ⟨prec name, hp, hqb⟩
@@ -211,7 +211,7 @@ theorem done_sign (name : String) (a : Ast) (ta : List Tok) (qa : Nat) (hn : nam
     have hne : name ≠ signSym name := by
       have := g3; rw [g1] at this; exact this
     have hstep : step s (.opr (signSym name)) = .ok ⟨.op name :: bump s.st, s.out, .opr⟩ := by
-      simp only [step, signSym_pm name, false_and, if_false, oprStep, g1, h1, hne, popWhile_stops 7 s.st hs s.out, h4]
+      simp only [step, signSym_pm name, signSym_not_range name, false_and, if_false, oprStep, g1, h1, hne, popWhile_stops 7 s.st hs s.out, h4]
     rw [runToks_cons _ _ _ _ hstep (by simp)]
     have := ra ⟨.op name :: bump s.st, s.out, .opr⟩ (Or.inr (Or.inr rfl)) ⟨7, h1, hqa⟩
     rw [this]
